@@ -141,15 +141,215 @@ def reach(objs, skip=()):
     return out
 
 
+# ------------------------------------------------------------------------------------------ process-wide statics
+# Mutable objects that belong to no domain, problem or state but to the PROCESS: module globals of pddl_plus_parser.*,
+# class attributes of the library's classes and the default-argument objects of its functions and methods
+# (`__defaults__` / `__kwdefaults__`, e.g. the `{}` of PDDLFunction.__init__(repeating_variables={}): ONE dict that
+# every PDDLFunction built without explicit repeating variables carries).  They are part of the module root "M" of the
+# digest oracle: a call that writes one of them changes what every other domain of the process sees.
+_STATIC_KINDS = (dict, list, set, bytearray)
+_SKIP_TYPES = (type, type(sys), type(lambda: 0), type(len), logging.Logger, staticmethod, classmethod, property)
+
+
+def _lib(modname):
+    return isinstance(modname, str) and (modname == "pddl_plus_parser" or modname.startswith("pddl_plus_parser."))
+
+
+def _is_static_candidate(v):
+    if isinstance(v, ATOMIC) or isinstance(v, _SKIP_TYPES):
+        return False
+    if isinstance(v, _STATIC_KINDS) or isinstance(v, (tuple, frozenset)):
+        return True
+    cls = type(v)
+    import enum
+    if isinstance(v, enum.Enum):
+        return False
+    return _lib(getattr(cls, "__module__", None)) and hasattr(v, "__dict__")
+
+
+def _functions_of(v):
+    if isinstance(v, (staticmethod, classmethod)):
+        v = v.__func__
+    if isinstance(v, property):
+        return [f for f in (v.fget, v.fset, v.fdel) if f is not None]
+    if isinstance(v, type(lambda: 0)):
+        return [v]
+    return []
+
+
+def _default_objects(f, where):
+    out = []
+    for i, d in enumerate(f.__defaults__ or ()):
+        if _is_static_candidate(d):
+            out.append(("%s.__defaults__[%d]" % (where, i), d))
+    for k, d in sorted((f.__kwdefaults__ or {}).items()):
+        if _is_static_candidate(d):
+            out.append(("%s.__kwdefaults__[%s]" % (where, k), d))
+    return out
+
+
+_LIB_MODULES = [0, []]
+
+
+def _lib_modules():
+    """names of the library's loaded modules (recomputed when sys.modules grows: sympy alone loads > 1000 modules)"""
+    if _LIB_MODULES[0] != len(sys.modules):
+        _LIB_MODULES[0], _LIB_MODULES[1] = len(sys.modules), sorted(n for n in list(sys.modules) if _lib(n))
+    return _LIB_MODULES[1]
+
+
+def statics():
+    """(name, object) for every process-wide object of the library's loaded modules, each object once, in a fixed
+    order (module name, attribute name)."""
+    import enum
+    out, seen = [], set()
+
+    def add(name, obj):
+        if id(obj) not in seen:
+            seen.add(id(obj))
+            out.append((name, obj))
+
+    for mname in _lib_modules():
+        mod = sys.modules.get(mname)
+        if mod is None:
+            continue
+        for k in sorted(vars(mod)):
+            if k.startswith("__"):
+                continue
+            v = vars(mod)[k]
+            if isinstance(v, type):
+                if v.__module__ != mname or not _lib(v.__module__) or issubclass(v, enum.Enum):
+                    continue
+                for ck in sorted(vars(v)):
+                    cv = vars(v)[ck]
+                    fs = _functions_of(cv)
+                    for f in fs:
+                        for nm, d in _default_objects(f, "%s.%s.%s" % (mname, v.__name__, ck)):
+                            add(nm, d)
+                    if not fs and not ck.startswith("__") and _is_static_candidate(cv):
+                        add("%s.%s.%s" % (mname, v.__name__, ck), cv)
+            elif isinstance(v, type(lambda: 0)):
+                if v.__module__ == mname:
+                    for nm, d in _default_objects(v, "%s.%s" % (mname, k)):
+                        add(nm, d)
+            elif _is_static_candidate(v) and not type(v).__module__.startswith("typing"):
+                add("%s.%s" % (mname, k), v)
+    return out
+
+
+_STATIC_BASE = None
+
+
+def _snapshot(obj):
+    if isinstance(obj, dict):
+        return ("dict", list(dict.items(obj)))
+    if isinstance(obj, list):
+        return ("list", list(obj))
+    if isinstance(obj, set):
+        return ("set", set(obj))
+    if isinstance(obj, bytearray):
+        return ("bytes", bytes(obj))
+    d = getattr(obj, "__dict__", None)
+    if isinstance(d, dict):
+        return ("obj", dict(d))
+    return ("other", None)
+
+
+def _restore(obj, snap):
+    kind, val = snap
+    if kind == "dict":
+        dict.clear(obj)
+        dict.update(obj, val)
+    elif kind == "list":
+        obj[:] = val
+    elif kind == "set":
+        set.clear(obj)
+        set.update(obj, val)
+    elif kind == "bytes":
+        obj[:] = val
+    elif kind == "obj":
+        obj.__dict__.clear()
+        obj.__dict__.update(val)
+
+
+def _static_state():
+    """{name: (object, digest, shallow snapshot)}"""
+    return {n: (o, digest([o]), _snapshot(o)) for n, o in statics()}
+
+
+# ------------------------------------------------------------------------------------------ an independent world
+class Indep:
+    """A second, INDEPENDENT domain + problem with a few states, built BEFORE the history runs on the first domain.
+    Nothing the history does may change what these values are (digests) nor what they answer (observations)."""
+
+    def __init__(self, spec, wdir):
+        dp, pp = wdir / "indep_dom.pddl", wdir / "indep_prob.pddl"
+        dp.write_text(spec["dom"])
+        pp.write_text(spec["prob"])
+        self.dom = DomainParser(dp).parse_domain()
+        self.prob = ProblemParser(pp, self.dom).parse_problem()
+        s = State(self.prob.initial_state_predicates, self.prob.initial_state_fluents, is_init=True)
+        self.states, self.ops, self.skipped, self.build_log = [s], [], 0, []
+        for c in spec.get("calls", []):
+            s0 = {n: digest([o]) for n, o in statics()}
+            try:
+                o = Operator(self.dom.actions[c["act"]], self.dom, list(c["args"]), self.prob.objects)
+                s2 = o.apply(s)
+            except Exception:  # an inapplicable call of the independent plan is simply left out
+                self.skipped += 1
+                continue
+            finally:
+                wrote = sorted(n for n, ob in statics() if s0.get(n) != digest([ob]))
+                if wrote:      # this very call wrote a process-wide object
+                    self.build_log.append({"call": "(%s %s)" % (c["act"], " ".join(c["args"])), "statics_changed": wrote})
+            self.ops.append(o)
+            self.states.append(s2)
+            s = s2
+        self.ref = self.observe()
+
+    def roots(self):
+        return [("ID", [self.dom]), ("IS0", [self.states[0], self.prob])] + \
+               [("IS%d" % i, [s]) for i, s in enumerate(self.states) if i > 0]
+
+    def digest_all(self):
+        """one digest of the whole world (one walk; which root changed is worked out only when it differs)"""
+        return digest([o for _, objs in self.roots() for o in objs])
+
+    def observe(self):
+        def safe(f):
+            try:
+                return f()
+            except Exception as e:  # the failure itself is the observation
+                return "raised %s: %s" % (type(e).__name__, str(e)[:80])
+        obs = {"domain export": safe(lambda: DomainExporter().extract_domain(self.dom)),
+               "problem export": safe(lambda: ProblemExporter().extract_problem(self.prob)),
+               "domain functions": safe(lambda: [f.state_representation for f in self.dom.functions.values()]),
+               "str(domain)": safe(lambda: str(self.dom))}
+        for i, s in enumerate(self.states):
+            obs["state %d serialize()" % i] = safe(s.serialize)
+            obs["state %d typed_serialize()" % i] = safe(s.typed_serialize)
+        for j, o in enumerate(self.ops):
+            obs["op %d str" % j] = safe(lambda: str(o) + "|" + o.typed_action_call)
+            for i, s in enumerate(self.states):
+                obs["op %d applicable in state %d" % (j, i)] = safe(lambda: bool(o.is_applicable(s)))
+            obs["op %d apply(state %d) again" % (j, j)] = safe(lambda: state_res(o.apply(self.states[j]))["canon"])
+        return obs
+
+    def check(self):
+        now = self.observe()
+        return sorted(k for k in self.ref if now.get(k) != self.ref[k]), now
+
+
 # ------------------------------------------------------------------------------------------ the executor
 class Ctx:
-    def __init__(self, job, wdir, shared_domains=None):
+    def __init__(self, job, wdir, shared_domains=None, indep=None):
         self.job, self.wdir = job, wdir
         self.doms = list(shared_domains or [])     # Domain objects
         self.sts = []                              # (State, Problem-or-None)
         self.ops = []                              # Operator objects
         self.plans = []                            # lists of TrajectoryTriplet (results of parse_plan)
         self.files = {}
+        self.indep = indep                         # Indep or None
 
     def path(self, kind, i, text):
         key = (kind, i)
@@ -165,10 +365,26 @@ class Ctx:
         r += [("D%d" % i, [d]) for i, d in enumerate(self.doms)]
         r += [("S%d" % i, [s] + ([p] if p is not None else [])) for i, (s, p) in enumerate(self.sts)]
         r += [("O%d" % i, [o]) for i, o in enumerate(self.ops)]
+        if self.indep is not None:
+            r += self.indep.roots()
         return r
 
     def protected_digests(self):
-        return {name: digest(objs) for name, objs in self.roots() if name[0] != "O"}
+        """digests of every protected root; the module root "M" is DEFAULT_TYPES together with every process-wide
+        static object of the library (statics()); "@<name>" entries are the single statics (they say WHICH one changed)"""
+        out = {name: digest(objs) for name, objs in self.roots() if name[0] not in "OI" and name != "M"}
+        if self.indep is not None:
+            d = self.indep.digest_all()
+            if getattr(self, "_indep_all", d) != d or not hasattr(self, "_indep_per"):
+                self._indep_per = {name: digest(objs) for name, objs in self.indep.roots()}
+            self._indep_all = d
+            out.update(self._indep_per)
+        if not hasattr(self, "_statics"):
+            self._statics = statics()      # enumerated once per history (the objects themselves are digested at every call)
+        per = {"@" + n: digest([o]) for n, o in self._statics}
+        out.update(per)
+        out["M"] = hashlib.sha1(json.dumps([digest([_pddl_domain.DEFAULT_TYPES]), sorted(per.items())]).encode()).hexdigest()[:16]
+        return out
 
     def sharing(self):
         # A Problem refers to its own Domain: through Problem.domain (CUT) and through the leaves of its numeric goal
@@ -177,14 +393,20 @@ class Ctx:
         # these references into the schema are not "state shared between values": no operation evaluates a goal tree.
         # (The digest oracle still walks them: a write to such an object is reported as a change of the domain.)
         schema = {id(f) for d in self.doms for f in dict.values(d.functions)}
-        rs = [(name, reach(objs, skip=() if name[0] == "D" else schema)) for name, objs in self.roots()]
-        pairs = []
+        if self.indep is not None:
+            schema |= {id(f) for f in dict.values(self.indep.dom.functions)}
+        rs = [(name, reach(objs, skip=() if name[0] == "D" or name == "ID" else schema)) for name, objs in self.roots()]
+        pairs, foreign = [], []
         for i in range(len(rs)):
             for j in range(i + 1, len(rs)):
+                ia, ib = rs[i][0][0] == "I", rs[j][0][0] == "I"
+                if ia and ib:
+                    continue                   # inside the independent world: its own business
                 common = set(rs[i][1]) & set(rs[j][1])
                 if common:
                     kinds = sorted({rs[i][1][c] for c in common})
-                    pairs.append([rs[i][0], rs[j][0], kinds])
+                    (foreign if ia or ib else pairs).append([rs[i][0], rs[j][0], kinds])
+        self.foreign_pairs = foreign           # a root of the history shares a mutable object with the independent world
         return pairs
 
 
@@ -385,9 +607,15 @@ def strip_x(res):
     return r
 
 
-def run_history(job, wdir, shared_domains=None, oracle=True, watch=None, mark_steps=False):
+def _split_changed(before, after):
+    """names of roots whose digest changed: (roots of the history, roots of the independent world, single statics)"""
+    names = sorted(n for n in before if before[n] != after.get(n))
+    return ([n for n in names if n[0] not in "I@"], [n for n in names if n[0] == "I"], [n[1:] for n in names if n[0] == "@"])
+
+
+def run_history(job, wdir, shared_domains=None, oracle=True, watch=None, mark_steps=False, indep=None):
     """Executes job['ops']; returns the trace."""
-    ctx = Ctx(job, wdir, shared_domains)
+    ctx = Ctx(job, wdir, shared_domains, indep=indep if oracle else None)
     steps = []
     before = ctx.protected_digests() if oracle else {}
     for step_index, raw in enumerate(job["ops"]):
@@ -420,9 +648,18 @@ def run_history(job, wdir, shared_domains=None, oracle=True, watch=None, mark_st
             res = {"raised": type(e).__name__, "msg": str(e)[:200]}
         step = {"op": op, "res": res}
         if oracle:
+            # the independent world first (its queries run on its own operators): same answers as before the history?
+            okeys, now = ctx.indep.check() if ctx.indep is not None else ([], None)
             after = ctx.protected_digests()
-            step["changed"] = sorted(n for n in before if before[n] != after.get(n))
+            step["changed"], ichanged, schanged = _split_changed(before, after)
             step["sharing"] = ctx.sharing()
+            if schanged:
+                step["statics_changed"] = schanged
+            if ctx.indep is not None and (ichanged or okeys or ctx.foreign_pairs):
+                # ... same values (digests), no mutable object in common with a root of the history
+                step["indep"] = {"changed": ichanged, "sharing": ctx.foreign_pairs,
+                                 "answers": [{"what": k, "before": _short(ctx.indep.ref[k]), "after": _short(now.get(k))} for k in okeys[:6]]}
+                ctx.indep.ref = now            # report each change once, at the call that made it
             before = after
         if watch is not None:
             w = watch()
@@ -444,16 +681,40 @@ def run_history(job, wdir, shared_domains=None, oracle=True, watch=None, mark_st
                 mism.append({"step": i, "first": strip_x(st["res"]), "again": strip_x(again)})
         after = ctx.protected_digests()
         out["repeat_mismatch"] = mism
-        out["repeat_changed"] = sorted(n for n in before if before[n] != after.get(n))
+        out["repeat_changed"] = sorted(n.lstrip("@") for n in before if before[n] != after.get(n))
+        if ctx.indep is not None:
+            okeys, now = ctx.indep.check()
+            if okeys:
+                out["repeat_changed"] += ["independent world: " + k for k in okeys[:6]]
+        out["indep"] = [dict(s["indep"], step=i) for i, s in enumerate(steps) if s.get("indep")]
+        out["statics_changed"] = sorted({n for s in steps for n in s.get("statics_changed", [])})
     return out, ctx
 
 
+def _short(x):
+    t = x if isinstance(x, str) else json.dumps(x)
+    return t if len(t) <= 300 else t[:300] + "..."
+
+
 def _reset_module():
-    """histories are independent: undo a leak into the module-level dict before the next one"""
+    """histories are independent: undo a leak into DEFAULT_TYPES or into any other process-wide static object before
+    the next one; returns what had leaked"""
+    global _STATIC_BASE
     dt = _pddl_domain.DEFAULT_TYPES
     leaked = [k for k in dt if k != "object"]
     for k in leaked:
         del dt[k]
+    if _STATIC_BASE is None:
+        _STATIC_BASE = _static_state()
+        return leaked
+    for name, obj in statics():
+        base = _STATIC_BASE.get(name)
+        if base is None or base[0] is not obj:
+            _STATIC_BASE[name] = (obj, digest([obj]), _snapshot(obj))      # a module imported later
+            continue
+        if digest([obj]) != base[1]:
+            leaked.append(name)
+            _restore(obj, base[2])
     return leaked
 
 
@@ -464,8 +725,17 @@ def history(job):
     wdir.mkdir(parents=True)
     try:
         _reset_module()
-        out, _ = run_history(job, wdir)
+        s0 = {n: digest([o]) for n, o in statics()}
+        indep = Indep(job["indep"], wdir) if job.get("indep") else None
+        s1 = {n: digest([o]) for n, o in statics()}
+        out, _ = run_history(job, wdir, indep=indep)
         out["module_leak"] = _reset_module()
+        built = sorted(n for n in s0 if s1.get(n) != s0[n])
+        if built:      # building / simulating the independent world itself wrote a process-wide object
+            out["statics_changed"] = sorted(set(out.get("statics_changed", [])) | set(built))
+            out["statics_changed_while_building_independent_world"] = indep.build_log or built
+        if indep is not None:
+            out["indep_world"] = {"states": len(indep.states), "calls_skipped": indep.skipped}
         return out
     finally:
         shutil.rmtree(wdir, ignore_errors=True)
